@@ -109,7 +109,7 @@ def constants_module(descs, module="MC_DF", extends="Dataflow", extra=""):
 
 CFG_CONST = "CONSTANT Nets <- cNets\n"
 SAFETY = ["ReturnMeansAllDone", "FailureMeansRaise", "OneTermPerStep", "ProvenanceOK", "PutImpliesPersisted",
-          "ProvAcyclicByConstruction", "Confluent", "OnlyCloseCancelRaises", "QuiescentMeansEnded"]
+          "ProvAcyclicByConstruction", "Confluent", "OnlyCloseCancelRaises", "QuiescentMeansEnded", "JobMatchesGroup"]
 
 
 def cfg(liveness=True, invariants=None, spec="SpecQ"):
